@@ -678,6 +678,129 @@ pub fn reference(input: &str, which: Which) -> (Vec<(String, usize, usize)>, Log
     (items, log)
 }
 
+// ---------------------------------------------------------------- callback NAMES
+/// User callbacks whose path ends in a name that logos itself gives a meaning to (`skip`), reached
+/// through module paths, an import, an associated function - on unit and value variants, with every
+/// return type that decides something. The callback that runs must be the user's: its side effect
+/// (the log), its decision and its bump all have to show.
+pub mod n1 {
+    pub fn skip<'s>(lex: &mut super::Lexer<'s, super::MN>) -> bool {
+        super::note(lex) % 2 == 0
+    }
+}
+pub mod n2 {
+    pub fn skip<'s>(lex: &mut super::Lexer<'s, super::MN>) -> super::Filter<()> {
+        if super::note(lex) % 3 == 1 { super::Filter::Skip } else { super::Filter::Emit(()) }
+    }
+}
+pub mod n3 {
+    pub fn skip<'s>(lex: &mut super::Lexer<'s, super::MN>) -> Result<super::Skip, super::MyErr> {
+        let n = super::note(lex);
+        if n % 2 == 0 { Err(super::MyErr::Custom(n)) } else { Ok(super::Skip) }
+    }
+}
+pub mod n4 {
+    pub fn skip<'s>(lex: &mut super::Lexer<'s, super::MN>) {
+        let k = lex.remainder().bytes().take_while(|c| *c == b'+').count();
+        lex.bump(k);
+        super::note(lex);
+    }
+}
+pub mod n5 {
+    pub fn skip<'s>(lex: &mut super::Lexer<'s, super::MN>) -> super::Skip {
+        super::note(lex);
+        super::Skip
+    }
+}
+pub mod n6 {
+    pub fn skip<'s>(lex: &mut super::Lexer<'s, super::MN>) -> usize {
+        super::note(lex)
+    }
+}
+mod mn_def {
+    use super::n5::skip;
+    use super::{Log, Logos, MyErr};
+    #[derive(Logos, Debug, Clone, PartialEq)]
+    #[logos(extras = Log, error = MyErr)]
+    pub enum MN {
+        #[regex("a[0-9]*", super::n1::skip)]
+        A,
+        #[regex("b[0-9]*", callback = super::n2::skip)]
+        B,
+        #[regex("c[0-9]*", super::n3::skip)]
+        C,
+        #[regex("d[0-9]*", super::n4::skip)]
+        D,
+        #[regex("e[0-9]*", skip)]
+        E,
+        #[regex("f[0-9]*", logos::skip)]
+        F,
+        #[regex("g[0-9]*", MN::assoc)]
+        G,
+        #[regex("h[0-9]*", super::n6::skip)]
+        H(usize),
+        #[token("i", crate::c13::n1::skip)]
+        I,
+        #[token(" ")]
+        Sp,
+        #[token("+")]
+        Plus,
+    }
+    impl MN {
+        fn assoc<'s>(lex: &mut super::Lexer<'s, MN>) -> bool {
+            super::note(lex) % 2 == 1
+        }
+    }
+}
+pub use mn_def::MN;
+
+fn reference_mn(input: &str) -> (Vec<(String, usize, usize)>, Log) {
+    let b = input.as_bytes();
+    let (mut items, mut log): (Vec<(String, usize, usize)>, Log) = (vec![], vec![]);
+    let mut p = 0;
+    while p < b.len() {
+        let c = b[p];
+        if (b'a'..=b'h').contains(&c) {
+            let n = 1 + b[p + 1..].iter().take_while(|x| x.is_ascii_digit()).count();
+            let mut e = p + n;
+            if c == b'd' {
+                e += b[e..].iter().take_while(|x| **x == b'+').count();
+            }
+            if c != b'f' {
+                log.push((p, e, input[p..e].to_string()));
+            }
+            let out = match c {
+                b'a' => Some(if n % 2 == 0 { "Ok(A)".to_string() } else { "Err(Default)".to_string() }),
+                b'b' => if n % 3 == 1 { None } else { Some("Ok(B)".to_string()) },
+                b'c' => if n % 2 == 0 { Some(format!("Err(Custom({n}))")) } else { None },
+                b'd' => Some("Ok(D)".to_string()),
+                b'e' | b'f' => None,
+                b'g' => Some(if n % 2 == 1 { "Ok(G)".to_string() } else { "Err(Default)".to_string() }),
+                _ => Some(format!("Ok(H({n}))")),
+            };
+            if let Some(o) = out {
+                items.push((o, p, e));
+            }
+            p = e;
+        } else if c == b'i' {
+            log.push((p, p + 1, "i".to_string()));
+            items.push(("Err(Default)".to_string(), p, p + 1));
+            p += 1;
+        } else if c == b' ' || c == b'+' {
+            items.push((if c == b' ' { "Ok(Sp)" } else { "Ok(Plus)" }.to_string(), p, p + 1));
+            p += 1;
+        } else {
+            let mut e = p + 1;
+            while !input.is_char_boundary(e) {
+                e += 1;
+            }
+            items.push(("Err(Default)".to_string(), p, e));
+            p = e;
+        }
+    }
+    (items, log)
+}
+
 fn observe<'s, T>(input: &'s str) -> (Vec<(String, usize, usize)>, Log)
 where
     T: Logos<'s, Source = str, Extras = Log> + std::fmt::Debug,
@@ -781,6 +904,11 @@ pub fn run(tier: &str, rep: &mut Report) {
     for s in ["let let! hey! hey?? lets", "xlet let!x tel", "a!b! ??? lett", "hey!let"] {
         check(rep, "MS", s, observe::<MS>(s), reference_ms(s), &mut digest);
     }
+    // user callbacks whose path ends in `skip` (modules, import, associated function)
+    strings(&["a", "b", "c", "d", "e", "f", "g", "h", "i", "1", "+", " ", "é"], l + 1, &mut |s| check(rep, "MN", s, observe::<MN>(s), reference_mn(s), &mut digest));
+    for s in ["a1 b c1 d++e f1g h12i", "d1+++ d+a12", "c12c1 b1b12b123", "e1e f f1 g12g"] {
+        check(rep, "MN", s, observe::<MN>(s), reference_mn(s), &mut digest);
+    }
     // closure bodies of several syntactic shapes
     strings(&["a", "b", "c", "f", "g", "h", "i", "0", "1", " ", "!", "é"], l + 1, &mut |s| check(rep, "CS", s, observe::<CS>(s), reference_cs(s), &mut digest));
     // longer digit runs and bump runs
@@ -861,6 +989,7 @@ pub fn replay(rec: &serde_json::Value, rep: &mut Report) {
         "MK" => observe::<MK>(input) != reference_mk(input),
         "CS" => observe::<CS>(input) != reference_cs(input),
         "MS" => observe::<MS>(input) != reference_ms(input),
+        "MN" => observe::<MN>(input) != reference_mn(input),
         "MB" => observe_mb(input.as_bytes()) != reference_mb(input.as_bytes()),
         _ => observe::<M>(input).0 != observe::<Twin>(input).0,
     };
